@@ -296,7 +296,7 @@ func runC11(c *fw.Ctx) {
 	}
 	r := c.Rand("batches")
 	Ts := []int{2, 4, 8, 16}
-	for i := 0; i < c.PerShard(c.Pick(96, 3000)); i++ {
+	for i := 0; i < c.PerShard(c.Pick(240, 6000)); i++ {
 		c11Batch(c, r, fmt.Sprintf("batch-%d", i), Ts[i%len(Ts)])
 	}
 }
